@@ -68,8 +68,14 @@ class Report:
         return [(t, c, v) for t, c, v in self.verdicts if v.obl.expect == 'proved' and v.status == 'undecided']
 
     def mustfail_broken(self):
-        """must-fail obligations that were NOT refuted -> the engine or the hypotheses are broken (vacuity guard)"""
-        return [(t, c, v) for t, c, v in self.verdicts if v.obl.expect == 'refuted' and v.status != 'refuted']
+        """vacuity guard: a must-fail clause has to be refuted on at least one path of its configuration (paths on which it
+        is legitimately true -- early returns, infeasible paths -- do not count against it); otherwise the engine or the
+        hypotheses are broken"""
+        groups = {}
+        for t, c, v in self.verdicts:
+            if v.obl.expect == 'refuted':
+                groups.setdefault((t.fullname, c.name, v.obl.name), []).append((t, c, v))
+        return [items[0] for items in groups.values() if not any(v.status == 'refuted' for _, _, v in items)]
 
     def solver_time(self):
         return sum(v.time for _, _, v in self.verdicts)
